@@ -64,8 +64,40 @@ func checkC30(c *Ctx, r *Report) {
 	// R3: Add
 	r3 := r.Rule("R3", "E-ORDER/ok", "in Add, enqueue is reached only after the task was persisted without error (an already-stored task returns before enqueueing), and when the task is ready every persisted path reaches enqueue", 2)
 	if add := r.MustFunc(r3, "(*"+pkgPR+".manager).Add"); add != nil {
-		isAddErr := func(v ssa.Value) bool {
+		// a helper of the package whose every returned error is the error of
+		// AddPending/AddFailed stands for them ("persist wrapper")
+		var isAddErr func(v ssa.Value) bool
+		persistWrapper := func(sf *ssa.Function) bool {
+			if sf == nil || sf.Pkg != add.Pkg || len(sf.Blocks) == 0 || sf == add {
+				return false
+			}
+			n := 0
+			for _, ret := range returnsOf(sf) {
+				ev := errOperand(ret)
+				if ev == nil {
+					return false
+				}
+				ev = unspill(ev)
+				if !isCallTo(ev, mS("AddPending"), mS("AddFailed")) {
+					if phi, ok := ev.(*ssa.Phi); ok {
+						for _, e := range phi.Edges {
+							if !isCallTo(e, mS("AddPending"), mS("AddFailed")) {
+								return false
+							}
+						}
+					} else {
+						return false
+					}
+				}
+				n++
+			}
+			return n > 0
+		}
+		isAddErr = func(v ssa.Value) bool {
 			if isCallTo(v, mS("AddPending"), mS("AddFailed")) {
+				return true
+			}
+			if cl, ok := v.(*ssa.Call); ok && persistWrapper(cl.Common().StaticCallee()) {
 				return true
 			}
 			if phi, ok := v.(*ssa.Phi); ok {
@@ -103,7 +135,13 @@ func checkC30(c *Ctx, r *Report) {
 			r.Check(guardedBy(cs.Instr, persisted), r3, add, "enqueue", cs.Instr, "persisted first", "a task is enqueued before (or without) being persisted, or although it already existed in the store")
 		}
 		// AddPending success ⇒ enqueue on every path
-		for _, ap := range callsInNamed(add, mS("AddPending")) {
+		persistSites := callsInNamed(add, mS("AddPending"))
+		for _, cs := range callsIn(add) {
+			if sf := cs.Instr.Common().StaticCallee(); persistWrapper(sf) && len(callsInNamed(sf, mS("AddPending"))) > 0 {
+				persistSites = append(persistSites, cs)
+			}
+		}
+		for _, ap := range persistSites {
 			n, bad := 0, 0
 			forEachPath(add, 2000, func(p Path) {
 				if p.ret() == nil || !p.hasInstr(ap.Instr) {
@@ -122,6 +160,32 @@ func checkC30(c *Ctx, r *Report) {
 				})
 				if !took {
 					return
+				}
+				// a wrapper stores as pending only where its selecting parameter is true:
+				// paths of Add that take the false side of that same value stored the
+				// task as failed, which needs no enqueue
+				if sf := ap.Instr.Common().StaticCallee(); sf != nil && persistWrapper(sf) {
+					for _, inner := range callsInNamed(sf, mS("AddPending")) {
+						for i, prm := range sf.Params {
+							if prm.Type().String() != "bool" || i >= len(ap.Instr.Common().Args) {
+								continue
+							}
+							sel := guardedBy(inner.Instr, func(cond ssa.Value, val bool) int {
+								if cond == ssa.Value(prm) {
+									return tern(val, 1, -1)
+								}
+								return 0
+							})
+							if !sel {
+								continue
+							}
+							for _, e := range condEdges(ap.Instr.Common().Args[i], false) {
+								if p.hasEdge(e) {
+									return
+								}
+							}
+						}
+					}
 				}
 				n++
 				hit := false
@@ -179,7 +243,19 @@ func checkC30(c *Ctx, r *Report) {
 	}
 	// R5: retry
 	r5 := r.Rule("R5", "E-ORDER", "retry marks the task pending and, on success, every path reaches enqueue; it is called only by the poller on tasks returned by Store.GetFailed", 2)
-	if rt := r.MustFunc(r5, "(*"+pkgPR+".manager).retry"); rt != nil {
+	// the retry role: whichever manager function calls Store.MarkPending (a method
+	// of its own, or the poller itself when the call is written inline)
+	var retryFns []*ssa.Function
+	for _, fn := range c.FuncsIn(pkgPR) {
+		if !c.isFixture(fn) && recvTypeName(topFunc(fn)) == pkgPR+".manager" && len(callsInNamed(fn, mS("MarkPending"))) > 0 {
+			retryFns = append(retryFns, fn)
+		}
+	}
+	if len(retryFns) == 0 {
+		r.Unresolved(r5, "no manager function calls Store.MarkPending")
+	}
+	for _, rt := range retryFns {
+		r.Analysed(rt)
 		mps := callsInNamed(rt, mS("MarkPending"))
 		encs := callsInNamed(rt, "(*"+pkgPR+".manager).enqueue")
 		ok := len(mps) == 1 && len(encs) >= 1
@@ -192,7 +268,7 @@ func checkC30(c *Ctx, r *Report) {
 				n++
 				hit := false
 				for _, e := range encs {
-					if p.hasInstr(e.Instr) && precedes(mps[0].Instr, e.Instr) {
+					if p.hasInstr(e.Instr) && instrAfterOnPath(p, mps[0].Instr, e.Instr) {
 						hit = true
 					}
 				}
@@ -203,6 +279,17 @@ func checkC30(c *Ctx, r *Report) {
 			ok = n > 0 && bad == 0
 		}
 		r.Check(ok, r5, rt, "MarkPending ⇒ enqueue", nil, "pending then always enqueued", "retry marks a task pending without then enqueueing it on every path")
+		// the task comes from GetFailed: in this function's own loop, or at its call sites
+		own := false
+		for _, l := range rangeLoops(rt) {
+			if len(mps) == 1 && mentionsCall(l.Ranged, mS("GetFailed")) && l.derivesFromElem(mps[0].Instr.Common().Args[len(mps[0].Instr.Common().Args)-1]) {
+				own = true
+			}
+		}
+		if own {
+			r.OK(r5, rt, "retry call", mps[0].Instr, true, "marks tasks taken from GetFailed()")
+			continue
+		}
 		for _, cs := range c.CallsTo(funcName(rt)) {
 			fn := cs.Caller
 			fromFailed := false
